@@ -84,14 +84,8 @@ structure Stats where
   mcCut : Nat := 0
 deriving Repr, DecidableEq, Inhabited
 
-/-- `MinimaxConfig` after `NewMinimax`'s normalisation (`Depth 0 ↦ maxDepth`, `RandomizeScale 0 ↦ 1`).
-`tableEntries = none` is `TableMem < 0`; `some n` is a table of `n` entries (`TableMem / 32`). -/
-structure Cfg where
-  depth : Int
-  maxEvals : Nat := 0
-  tableEntries : Option Nat := none
-  randomizeWindow : Int := 0
-  randomizeScale : Int := 1
+/-- the option switches of `MinimaxConfig` that the search proper (`pvSearch`, `zwSearch`, the move generator) reads -/
+structure SOpts where
   noSort : Bool := false
   noNullMove : Bool := false
   noReduceSlides : Bool := false
@@ -99,8 +93,20 @@ structure Cfg where
   dedupSymmetry : Bool := false
 deriving Repr, DecidableEq, Inhabited
 
+/-- `MinimaxConfig` after `NewMinimax`'s normalisation (`Depth 0 ↦ maxDepth`, `RandomizeScale 0 ↦ 1`).
+`tableEntries = none` is `TableMem < 0`; `some n` is a table of `n` entries (`TableMem / 32`).
+`Depth`, `MaxEvals` and the randomisation parameters are read by `Analyze`/`GetMove` only. -/
+structure Cfg where
+  depth : Int
+  maxEvals : Nat := 0
+  tableEntries : Option Nat := none
+  randomizeWindow : Int := 0
+  randomizeScale : Int := 1
+  opts : SOpts := {}
+deriving Repr, DecidableEq, Inhabited
+
 /-- `MakePrecise` -/
-def Cfg.makePrecise (c : Cfg) : Cfg :=
+def SOpts.makePrecise (c : SOpts) : SOpts :=
   { c with noNullMove := true, noReduceSlides := true, multiCut := false }
 
 /-- the environment of one `Analyze`/`GetMove` call: what the model does not compute itself.
@@ -245,7 +251,7 @@ def skipGen (g : Game P M) (mg : MG M) (r : M) (m : M) : Bool :=
   mg.teEq g m || mg.pvEq g m || g.moveEq r m
 
 /-- `case 3` and `default:` the generated moves (sorted by history when `depth > 1 && !NoSort`) -/
-def stage3 (g : Game P M) (cfg : Cfg) (o : Oracle M) (p : P) (mg : MG M)
+def stage3 (g : Game P M) (cfg : SOpts) (o : Oracle M) (p : P) (mg : MG M)
     (body : M → P → σ → Eng M → Except Err (Ctl σ ρ × Eng M))
     (r? : Option M) (a : σ) (s : Eng M) : Except Err (Ctl σ ρ × Eng M) :=
   let ms := g.allMoves p
@@ -255,7 +261,7 @@ def stage3 (g : Game P M) (cfg : Cfg) (o : Oracle M) (p : P) (mg : MG M)
   runList g p body (skipGen g mg (r?.getD g.zeroMove)) ms a s
 
 /-- `case 2` (response hint, looked up when the generator gets there) followed by the generated moves -/
-def stage23 [DecidableEq M] (g : Game P M) (cfg : Cfg) (o : Oracle M) (p : P) (mg : MG M)
+def stage23 [DecidableEq M] (g : Game P M) (cfg : SOpts) (o : Oracle M) (p : P) (mg : MG M)
     (body : M → P → σ → Eng M → Except Err (Ctl σ ρ × Eng M))
     (a : σ) (s : Eng M) : Except Err (Ctl σ ρ × Eng M) :=
   match respLookup mg.ply s with
@@ -269,7 +275,7 @@ def stage23 [DecidableEq M] (g : Game P M) (cfg : Cfg) (o : Oracle M) (p : P) (m
 
 /-- `for m, child := mg.Next(); child != nil; m, child = mg.Next() { body }` from a fresh (or `Reset`)
 generator: stage 0 table move, stage 1 PV hint, stage 2 response hint, then the generated moves. -/
-def iterate [DecidableEq M] (g : Game P M) (cfg : Cfg) (o : Oracle M) (p : P) (mg : MG M)
+def iterate [DecidableEq M] (g : Game P M) (cfg : SOpts) (o : Oracle M) (p : P) (mg : MG M)
     (body : M → P → σ → Eng M → Except Err (Ctl σ ρ × Eng M))
     (a : σ) (s : Eng M) : Except Err (Ctl σ ρ × Eng M) :=
   Ctl.andThen (Ctl.andThen (stage0 g p mg body a s) (stage1 g p mg body)) (stage23 g cfg o p mg body)
